@@ -246,7 +246,7 @@ def _s10(ctx):
         B.equivalent(B.guard_formula(cs[0]["guards"]), B.A("self.enable")) and cs[0]["conn"].omit is None
     ctx.ob("S10", STREAM, "Gate", "sink connected to source exactly when enabled", ok, "" if ok else f"{[(norm(c['conn'].src), norm(c['conn'].dst), c['guards']) for c in cs]}")
     rd = fx.find(domain="comb", target="self.sink.ready")
-    ok = len(rd) == 1 and B.equivalent(B.guard_formula(rd[0].guards), B.Not(B.A("self.enable"))) and rd[0].v == "int(sink_ready_when_disabled)"
+    ok = len(rd) == 1 and B.equivalent(rd[0].eff(), B.Not(B.A("self.enable"))) and rd[0].v == "int(sink_ready_when_disabled)"
     ctx.ob("S10", STREAM, "Gate", "disabled: sink.ready = the configured constant, nothing forwarded", ok, "" if ok else f"{[(a.v, a.gtext()) for a in rd]}")
     # ---- SyncFIFO arms
     fx = fx_of(ctx, STREAM, "SyncFIFO")
